@@ -8,6 +8,7 @@ count) and, for N <= 5, an exhaustive search for a signed renaming that explains
 the output.
 """
 import itertools
+import os
 import random
 
 from .. import tt
@@ -212,6 +213,12 @@ def case_library(ctx, size, rseed, count):
         N, cls = random_cnf(r, size)
         M = len(cls)
         F = make_cnf(N, cls)
+        if size != "large" and r.random() < 0.3:
+            # a user's subclass of CNF that presents these clauses while its inherited table holds others as well
+            from ..ducks import view_cnf
+            decoys = [[r.choice([1, -1]) * r.randint(1, N)] for _ in range(r.randint(1, 3))] if N else [[]]
+            F = view_cnf(N, cls, [list(c) for c in cls[:1]] + decoys + [list(c) for c in cls])
+            ctx.count("user_class_inputs")
         for combo in itertools.product(("fixed", "shuffle", "explicit"), repeat=3):
             if size == "large" and r.random() < 0.5:
                 continue
@@ -265,6 +272,87 @@ def case_library(ctx, size, rseed, count):
                 ctx.violation("shuffle:all-fixed-not-identity", "%s: output differs from the input" % label)
             ctx.judged((N, tuple(map(tuple, cls)), combo, seed, mode), nontrivial=M > 0,
                        sample={"variables": N, "clauses": cls[:5], "arguments": combo, "seed": seed, "rng": mode})
+
+
+OPTIMIZED_SCRIPT = r"""
+import itertools, json, sys, random
+sys.path.insert(0, sys.argv[1])
+import warnings; warnings.simplefilter("ignore")
+from cnfgen.formula.cnf import CNF
+from cnfgen.transformations.shuffle import Shuffle
+N, cls = 3, [[1, -2], [2, 3], [-1]]
+M = len(cls)
+out = {"optimize": sys.flags.optimize, "wrong": []}
+def run(**kw):
+    F = CNF()
+    F.update_variable_number(N)
+    for c in cls:
+        F.add_clause(list(c))
+    random.seed(5)
+    try:
+        G = Shuffle(F, **kw)
+        return "ok", G
+    except ValueError:
+        return "ValueError", None
+    except Exception as e:
+        return type(e).__name__, None
+base = dict(polarity_flips="fixed", variables_permutation="fixed", clauses_permutation="fixed")
+n = 0
+for vp in itertools.product(range(0, N + 2), repeat=N):
+    valid = sorted(vp) == list(range(1, N + 1))
+    st, G = run(**dict(base, variables_permutation=list(vp)))
+    n += 1
+    if (st == "ok") != valid or st not in ("ok", "ValueError"):
+        out["wrong"].append(["variables_permutation", list(vp), st])
+    elif valid and [sorted(c, key=abs) for c in G] != [sorted([(1 if l > 0 else -1) * vp[abs(l) - 1] for l in c], key=abs) for c in cls]:
+        out["wrong"].append(["variables_permutation", list(vp), "not applied"])
+for cp in itertools.product(range(-1, M + 1), repeat=M):
+    valid = sorted(cp) == list(range(M))
+    st, G = run(**dict(base, clauses_permutation=list(cp)))
+    n += 1
+    if (st == "ok") != valid or st not in ("ok", "ValueError"):
+        out["wrong"].append(["clauses_permutation", list(cp), st])
+for pf in itertools.product((-1, 1, 0, 2), repeat=N):
+    valid = all(x in (-1, 1) for x in pf)
+    st, G = run(**dict(base, polarity_flips=list(pf)))
+    n += 1
+    if (st == "ok") != valid or st not in ("ok", "ValueError"):
+        out["wrong"].append(["polarity_flips", list(pf), st])
+out["calls"] = n
+sys.stdout.write(json.dumps(out))
+"""
+
+
+def case_optimized(ctx):
+    """Shuffle's argument validation in an interpreter started with -O (assert statements and `if __debug__:` blocks are
+    compiled away): explicit arguments that are not permutations / sign vectors are refused there as well."""
+    import json
+    import subprocess
+    import sys
+    import tempfile
+    from .. import REPO
+    with tempfile.TemporaryDirectory(prefix="c09o-") as tmp:
+        script = os.path.join(tmp, "shuffle_args.py")
+        with open(script, "w") as f:
+            f.write(OPTIMIZED_SCRIPT)
+        for flag in ([], ["-O"], ["-OO"]):
+            env = dict(os.environ)
+            env.pop("PYTHONPATH", None)
+            env.pop("PYTHONOPTIMIZE", None)
+            try:
+                p = subprocess.run([sys.executable] + flag + [script, REPO], env=env, capture_output=True, text=True, timeout=300)
+            except subprocess.TimeoutExpired:
+                ctx.problems.append({"kind": "spawn-failed", "case": ctx.case, "traceback": "python %s timed out" % flag})
+                continue
+            if p.returncode != 0:
+                ctx.problems.append({"kind": "harness-error", "case": ctx.case, "traceback": "python %s: %s" % (flag, p.stderr[-500:])})
+                continue
+            res = json.loads(p.stdout)
+            ctx.count("optimized_interpreter_calls", res["calls"])
+            for which, arg, st in res["wrong"][:5]:
+                ctx.violation("shuffle:python%s:%s" % ("".join(flag) or "", "accepts-invalid-" + which if st in ("ok", "not applied") else "raises:" + st),
+                              "python %s: Shuffle(F, %s=%r) -> %s" % (" ".join(flag), which, arg, st))
+            ctx.judged(("optimized", tuple(flag)), nontrivial=True, sample={"interpreter_flags": flag, "optimize": res["optimize"], "calls": res["calls"]})
 
 
 def invalid_args(N, M):
@@ -444,3 +532,4 @@ def workload(tier, seed):
         yield "tool", {"rseed": seed * 1000 + i, "count": 3}
     for i in range(2 if q else 12):
         yield "T", {"rseed": seed * 1000 + i}
+    yield "optimized", {}
